@@ -62,6 +62,9 @@ type e2eCfg struct {
 	hook      e2eHook
 	// events triggered by the harness while the transfer runs
 	onStart func(r *e2eRun)
+	// C20: called with every write of the client to its terminal, in the goroutine that writes, before the
+	// write is recorded; nil = none
+	termHook func(p []byte)
 	// maximum wall time before the harness gives up (hang detection)
 	deadline time.Duration
 	// how long to wait for the client to recognise the trigger (default 10 s)
@@ -225,6 +228,9 @@ func (r *e2eRun) deliver(dir int, b []byte, out func([]byte) error, closeFn func
 type termWriter struct{ r *e2eRun }
 
 func (w termWriter) Write(p []byte) (int, error) {
+	if w.r.cfg.termHook != nil {
+		w.r.cfg.termHook(p) // C20: a slow terminal (the hook may block), seen in the writing goroutine
+	}
 	w.r.mu.Lock()
 	w.r.term.Write(p)
 	w.r.mu.Unlock()
